@@ -60,8 +60,24 @@ def run(kind, mode, value, x, seed):
     return ch(x)
 
 
-def gen_signal(shape, power, cplx, rng):
+def gen_signal(shape, power, cplx, rng, family="gaussian"):
+    """family: gaussian (zero mean) | dc_offset (mean carries 80 % of the power) | constant | unipolar (on-off). SNR is defined through the
+    signal POWER, not its variance, so signals with a DC component are the cases that tell the two apart."""
     import torch
+    if family != "gaussian":
+        n = int(np.prod(shape))
+        if family == "constant":
+            a = np.ones(n)
+        elif family == "unipolar":
+            a = (rng.rand(n) < 0.5).astype(np.float64)
+            a[0] = 1.0
+        else:
+            a = 2.0 + rng.randn(n)
+        a = a.astype(np.complex128 if cplx else np.float64)
+        if cplx:
+            a = a * np.exp(1j * 0.7)
+        a = (a / np.sqrt(np.mean(np.abs(a) ** 2)) * np.sqrt(power)).reshape(shape)
+        return torch.from_numpy(a.astype(np.complex64 if cplx else np.float32))
     if cplx:
         a = (rng.randn(*shape) + 1j * rng.randn(*shape)) / np.sqrt(2)
         return torch.from_numpy((a * np.sqrt(power)).astype(np.complex64))
@@ -80,7 +96,7 @@ def check_config(ctx, cell, case):
     kind, cplx, shape, ps = case["kind"], case["complex"], tuple(case["shape"]), case["signal_power"]
     cell = cell or {"channel": kind, "dtype": "complex" if cplx else "real"}
     rng = np.random.RandomState(case.get("seed", ctx.seed))
-    x = gen_signal(shape, ps, cplx, rng)
+    x = gen_signal(shape, ps, cplx, rng, case.get("family", "gaussian"))
     s = stage_signal(kind, x)
     Ps = p64(s)
     seed = 1234 + case.get("seed", ctx.seed)
@@ -140,6 +156,11 @@ def unit_deterministic(ctx, kind):
         for shape in ((4096,), (8, 512), (2, 3, 16, 16)):
             for ps in (1e-3, 0.1, 1.0, 30.0, 1e3):
                 check_config(ctx, None, {"kind": kind, "complex": cplx, "shape": list(shape), "signal_power": ps, "seed": ctx.seed})
+        # signals with a DC component (power != variance)
+        for fam in ("dc_offset", "constant", "unipolar"):
+            for shape, ps in (((4096,), 1.0), ((8, 512), 0.1), ((2, 3, 16, 16), 30.0)):
+                check_config(ctx, {"channel": kind, "dtype": "complex" if cplx else "real", "signal": fam},
+                             {"kind": kind, "complex": cplx, "shape": list(shape), "signal_power": ps, "seed": ctx.seed, "family": fam})
 
 
 def unit_reuse(ctx):
